@@ -82,6 +82,21 @@ class Engine:
         self._record((i, "decode"), (events, obj), f"{how} decode of message {i} ({mode})")
 
     def step(self, s):
+        """Execute one history step; an exception out of the library is itself a result that differs from the first decode
+        (the pool holds well-formed messages only)."""
+        try:
+            self._step(s)
+        except (CheckFailure, HarnessError):
+            raise
+        except Exception as exc:  # noqa: BLE001
+            sig = O.crash_signature(exc) if not isinstance(exc, O.DOCUMENTED) else {"class": type(exc).__name__, "where": "documented-error", "message": str(exc)[:200]}
+            self.ctx.problem(
+                f"C12:step-raised:{sig['class']}",
+                f"step {list(s)} raised {sig['class']} ({sig['message']}) although every message of the pool is well-formed and decodes on its own; history {self.history}",
+                self.payload(),
+            )
+
+    def _step(self, s):
         self.history.append(list(s))
         kind = s[0]
         if kind == "full":
@@ -278,6 +293,13 @@ def run_shard(ctx):
         ctx.failures.append(ctx._last_failure)
     except HarnessError:
         raise
+    except (hypothesis.errors.Flaky, hypothesis.errors.FlakyStrategyDefinition) as exc:
+        # The harness is deterministic (seeded draws, no clock, no own RNG): a history that behaves differently when
+        # hypothesis re-executes it means the library's results depend on what was decoded before - the property itself.
+        if ctx._last_failure is not None:
+            ctx.failures.append(ctx._last_failure)
+        else:
+            ctx.failures.append({"signature": "C12:history-not-reproducible", "message": f"re-executing the same generated history gave a different course of events ({type(exc).__name__}: {str(exc)[:300]}): decoding depends on process state left by earlier decodes", "payload": {"note": "re-run the check with the same VERIF_SEED"}})
     except hypothesis.errors.HypothesisException as exc:
         if ctx._last_failure is not None:
             ctx.failures.append(ctx._last_failure)
@@ -291,6 +313,9 @@ def run_shard(ctx):
 
 def replay(ctx, payload):
     L = layout()
+    if "pool" not in payload:
+        print("this finding has no stand-alone replay: re-run the check with the same VERIF_SEED")
+        return
     pool = [dict(p, encrypted_area=False) for p in payload["pool"]]
     e = Engine(ctx, L, pool)
     for s in payload["history"]:
